@@ -51,6 +51,8 @@ impl<T: Default + Reset> Allocator<T> {
 impl<T: Default + Reset> Factory<T> for Allocator<T> {
     #[track_caller]
     fn get_instance(&mut self) -> T {
+        #[cfg(qmc_verif)]
+        verif_trace::push(std::any::type_name::<T>(), true);
         match self.instances.pop() {
             None => {
                 if self.gen_more {
@@ -64,8 +66,30 @@ impl<T: Default + Reset> Factory<T> for Allocator<T> {
     }
 
     fn return_instance(&mut self, mut t: T) {
+        #[cfg(qmc_verif)]
+        verif_trace::push(std::any::type_name::<T>(), false);
         t.reset();
         self.instances.push(t)
+    }
+}
+
+/// Verification hook (only with `--cfg qmc_verif`): a thread-local log of pool borrow / return events.
+#[cfg(qmc_verif)]
+pub mod verif_trace {
+    use std::cell::RefCell;
+
+    thread_local! {
+        static TRACE: RefCell<Vec<(&'static str, bool)>> = RefCell::new(Vec::new());
+    }
+
+    /// Record an event: `get` is true for a borrow, false for a return.
+    pub fn push(name: &'static str, get: bool) {
+        TRACE.with(|t| t.borrow_mut().push((name, get)));
+    }
+
+    /// Take (and clear) the events recorded on this thread.
+    pub fn take() -> Vec<(&'static str, bool)> {
+        TRACE.with(|t| std::mem::take(&mut *t.borrow_mut()))
     }
 }
 
